@@ -159,8 +159,8 @@ def execute(ctx, path):
 
 
 def run(ctx):
-    ctx.set_budget(60, 600)
-    ctx.explore(case_st, lambda c: execute(ctx, c), ctx.scale(13000, 200000))
+    ctx.set_budget(60, 840)
+    ctx.explore(case_st, lambda c: execute(ctx, c), ctx.scale(8000, 160000))
 
 
 def replay(ctx, case):
